@@ -384,6 +384,9 @@ pub fn boundary_amount(ctx: &mut Ctx, cb: i128, mb: i128) -> i64 {
 }
 
 pub struct HistCfg {
+    /// occasionally force the first scalar a new state draws (its nonce) to the close tag — `Nonce::new`
+    /// must redraw, so that every state the customer ever holds can be stored and read back
+    pub close_tag_draws: bool,
     pub faults_max: usize,
     pub restore: bool,
     pub payments: usize,
@@ -415,6 +418,7 @@ pub fn run_history(ctx: &mut Ctx, w: &World, w2: &World, cfg: &HistCfg) -> bool 
             }
         }
     }
+    if cfg.close_tag_draws && ctx.prng.gen_range(0..4) == 0 { ctx.forced_next = vec![CLOSE_SCALAR]; ctx.count("degenerate:close-tag-drawn-at-establish"); }
     let run = match establish_customer(ctx, w, &a) { Some(r) => r, None => return false };
     let mut h = Hist { w, w2, a: a.clone(), stage: None, ledger: (a.cb as i128, a.mb as i128), disclosed: vec![], faults_max: cfg.faults_max, restore: cfg.restore, recorded, failed: false };
     let out = match initialize_check(ctx, w, &a, &run.d, Some(true), "honest") { Some(o) => o, None => return false };
@@ -483,6 +487,7 @@ pub fn run_history(ctx: &mut Ctx, w: &World, w2: &World, cfg: &HistCfg) -> bool 
                 ctx.violation("a Ready customer state cannot be restored from its own encoding", json!({"class": "restore-fails", "stage": "ready", "bytes": hex::encode(&before_bytes)}));
             }
         }
+        if cfg.close_tag_draws && ctx.prng.gen_range(0..3) == 0 { ctx.forced_next = vec![CLOSE_SCALAR]; ctx.count("degenerate:close-tag-drawn-at-start"); }
         match pay_start(ctx, w, &a, ready, amount) {
             StartOutcome::Refused(r, e) => {
                 let got = match e { zkabacus_crypto::Error::InsufficientFunds => "insufficient-funds", zkabacus_crypto::Error::AmountTooLarge(_) => "amount-too-large" };
